@@ -38,7 +38,7 @@ def client_can_use(e):
     """legal SOCKSPort lines this client cannot turn into an endpoint: they are not 'usable', but must survive a re-listing"""
     tok = first_word(e)
     return not (tok == 'auto' or tok.startswith('['))
-ENTRY_POINTS = ['create', 'from_connection', 'tor_default', 'config_create', 'config_create_after_event']
+ENTRY_POINTS = ['create', 'from_connection', 'tor_default', 'config_create', 'config_create_after_event', 'config_create_pending_edit']
 
 
 def existing_configs(tier):
@@ -89,6 +89,11 @@ def run_choose(kind, entries, requested, entry_point):
             entry_point = 'config_create'
             if kind != 'list':
                 return None
+        pending_edit = entry_point == 'config_create_pending_edit'
+        if pending_edit:
+            entry_point = 'config_create'
+            if kind != 'list':
+                return None
         if entry_point == 'config_create':
             if kind == 'default':
                 return None
@@ -96,8 +101,13 @@ def run_choose(kind, entries, requested, entry_point):
                 # SocksPort is at its default (GETCONF answers the bare keyword); config/defaults names the default line
                 impl = CfgImpl(w, [('SocksPort', [])], defaults={'SocksPort': [DEFAULT_OPTS]})
             else:
-                impl = CfgImpl(w, [('SocksPort', list(entries))])
+                impl = CfgImpl(w, [('SocksPort', list(entries)), ('StrOpt', ['hello'])])
             proto, sim = impl.proto, impl.sim
+            if pending_edit:
+                # the application has an edit of its own prepared but not saved: picking an existing port must send nothing
+                if requested is None or not any(client_can_use(e) and requested in (e, first_word(e)) for e in entries):
+                    return None
+                impl.cfg.StrOpt = 'prepared, not saved'
         else:
             proto, wire, sim = connected_protocol(w)
             sim.strict_conf = True
@@ -141,7 +151,7 @@ def run_choose(kind, entries, requested, entry_point):
         cmds = sim.commands[base:]
         setconfs = [c for c in cmds if c.upper().startswith('SETCONF')]
         feat_cfg = kind if kind != 'list' else ('n=%d%s' % (len(entries), '/opts' if any(' ' in e for e in entries) else ''))
-        feat = '%s/%s/%s' % (entry_point + ('/after-CONF_CHANGED' if after_event else ''), feat_cfg, 'req-none' if requested is None else
+        feat = '%s/%s/%s' % (entry_point + ('/after-CONF_CHANGED' if after_event else '') + ('/with-unsaved-edit' if pending_edit else ''), feat_cfg, 'req-none' if requested is None else
                              ('req-present-line' if requested in effective and ' ' in requested else
                               ('req-present' if any(first_word(e) == requested for e in effective) else 'req-absent')))
         # (a requested line with the port of an existing entry but other option words is not in the alphabet: whether that is
@@ -196,6 +206,53 @@ def run_choose(kind, entries, requested, entry_point):
         obs = (tuple(setconfs), rec.summary()[0], describe(rec.value) if rec.kind == 'ok' else None)
         log = ['existing SOCKSPort: %r (%s)' % (entries, kind), 'requested: %r via %s' % (requested, entry_point), 'commands: %r' % (cmds,)]
     return dict(viol=viol, obs=obs, log=log)
+
+
+def run_retry2(entries, req_a, req_b):
+    """two create_socks_endpoint calls for different absent ports outstanding at once; Tor refuses port A (so both SETCONFs, the
+    second lists A too); both calls must fail and neither port may count as configured afterwards"""
+    viol = []
+    with World() as w:
+        impl = CfgImpl(w, [('SocksPort', list(entries))])
+        sim = impl.sim
+        sim.hold_prefixes = ['SETCONF']
+        r1 = DRec(impl.cfg.create_socks_endpoint(w.reactor, req_a))
+        sim.pump()
+        r2 = DRec(impl.cfg.create_socks_endpoint(w.reactor, req_b))
+        sim.pump()
+        refused = (513, [('line', 'Unacceptable option value: port A is busy')])
+        sim.sticky['SETCONF'] = lambda line: refused if req_a in [v for k, v in kvline.parse(line.split(' ', 1)[1])] else sim.cmd_SETCONF(line.split(' ', 1)[1])
+        sim.hold_prefixes = []
+        sim.pump()
+        tor_has_b = req_b in sim.conf['SocksPort']
+        if len(r1.fires) != 1 or r1.kind != 'err':
+            viol.append(('rejected-setconf-not-reported', 'config_create/two-outstanding', 'Tor refused %r; create_socks_endpoint -> %r' % (req_a, r1.summary()[:2])))
+        if len(r2.fires) != 1 or (r2.kind == 'ok') != tor_has_b:
+            viol.append(('result-disagrees-with-tor', 'config_create/two-outstanding',
+                         'second request %r -> %r; Tor has %r' % (req_b, r2.summary()[:2], sim.conf['SocksPort'])))
+        del sim.sticky['SETCONF']
+        obs = [r1.summary()[0], r2.summary()[0]]
+        for again in (req_a, req_b):
+            base = len(sim.commands)
+            had = again in sim.conf['SocksPort']
+            before = list(sim.conf['SocksPort'])
+            r3 = DRec(impl.cfg.create_socks_endpoint(w.reactor, again))
+            sim.pump()
+            setconfs = [c for c in sim.commands[base:] if c.upper().startswith('SETCONF')]
+            if len(r3.fires) == 1 and r3.kind == 'ok' and again not in sim.conf['SocksPort']:
+                viol.append(('endpoint-for-unconfigured-port', 'after-two-outstanding-requests-refused',
+                             'Tor refused %r (and with it %r); a later request for %r returned an endpoint having sent %r; Tor has %r'
+                             % (req_a, req_b, again, setconfs, sim.conf['SocksPort'])))
+            elif setconfs and not had:
+                vals = [v for k, v in kvline.parse(setconfs[0].split(' ', 1)[1])]
+                if vals != before + [again]:
+                    viol.append(('existing-entries-not-relisted-verbatim', 'after-two-outstanding-requests-refused',
+                                 'Tor has %r; the request for %r sent %r' % (before, again, vals)))
+            obs.append((r3.summary()[0], tuple(setconfs)))
+        errs = w.errors()
+        if errs:
+            viol.append(('logged-error', errs[0][1], '%r' % (errs[:1],)))
+    return dict(viol=viol, obs=tuple(obs), log=['existing %r; %r and %r requested together, Tor refuses %r' % (entries, req_a, req_b, req_a)])
 
 
 # --------------------------------------------------------------------------
@@ -330,6 +387,9 @@ def run_task(param, acc):
             for requested in ('9999', 'unix:/new', '9998 IsolateDestAddr'):
                 r = run_retry(entries, requested)
                 rec_exec(acc, ('retry', tuple(entries), requested), r, dict(fam='retry', entries=entries, requested=requested), cost=len(entries) + 2)
+            for a, b in itertools.permutations(('9999', 'unix:/new', '9998 IsolateDestAddr'), 2):
+                r = run_retry2(entries, a, b)
+                rec_exec(acc, ('retry2', tuple(entries), a, b), r, dict(fam='retry2', entries=entries, a=a, b=b), cost=len(entries) + 4)
         return
     if param[0] == 'guess':
         for n in (1, 2):
@@ -368,6 +428,8 @@ def replay(p):
         r = run_guess(tuple(p['seq']))
     elif p['fam'] == 'retry':
         r = run_retry(p['entries'], p['requested'])
+    elif p['fam'] == 'retry2':
+        r = run_retry2(p['entries'], p['a'], p['b'])
     else:
         r = run_choose(p['kind'], p['entries'], p['requested'], p['ep'])
     return dict(violations=[dict(signature='%s/%s' % (c, f), what=d) for c, f, d in r['viol']], log=r['log'])
